@@ -1,6 +1,7 @@
 package ws
 
 import (
+	"bytes"
 	"fmt"
 	"sync"
 
@@ -123,6 +124,7 @@ type session struct {
 	Wire     []byte
 	// shape flags
 	Fragmented, ControlBetween, Big bool
+	NearMax                         bool // a message within 130 bytes of the maximum with a large control frame between its fragments
 }
 
 // genSession draws a conforming server->client frame sequence.
@@ -132,11 +134,31 @@ func genSession(t *rapid.T, max int, maxMsgs int) session {
 	for i := 0; i < n; i++ {
 		lbl := fmt.Sprintf("m%d.", i)
 		m := wsMessage{Binary: rapid.Bool().Draw(t, lbl+"bin"), Payload: genPayload(t, max, lbl)}
+		// one shape is drawn on purpose rather than left to chance: a message that fills the configured maximum (almost)
+		// completely, cut so that most of it has been read when a control frame with a large payload arrives between the
+		// fragments - whatever is accounted against the maximum besides the message's own bytes shows here
+		nearMax := max >= 400 && rapid.IntRange(0, 7).Draw(t, lbl+"nearMax") == 0
+		var frs []rfc6455.Frame
+		if nearMax {
+			n := max - rapid.IntRange(0, 130).Draw(t, lbl+"belowMax")
+			fill := byte(rapid.IntRange(0, 255).Draw(t, lbl+"nfill"))
+			m.Payload = make([]byte, n)
+			for k := range m.Payload {
+				m.Payload[k] = fill + byte(k*29) + byte(k>>7)
+			}
+			c := n - rapid.IntRange(0, 126).Draw(t, lbl+"tail")
+			frs = []rfc6455.Frame{
+				{Fin: false, Opcode: m.opcode(), Payload: m.Payload[:c], LenBytes: -1},
+				{Fin: true, Opcode: rfc6455.OpContinuation, Payload: m.Payload[c:], LenBytes: -1},
+			}
+		}
 		s.Messages = append(s.Messages, m)
 		if len(m.Payload) > 125 {
 			s.Big = true
 		}
-		frs := fragment(t, m, lbl)
+		if !nearMax {
+			frs = fragment(t, m, lbl)
+		}
 		if len(frs) > 1 {
 			s.Fragmented = true
 		}
@@ -147,6 +169,12 @@ func genSession(t *rapid.T, max int, maxMsgs int) session {
 				if j > 0 {
 					s.ControlBetween = true
 				}
+			}
+			if nearMax && j == 1 {
+				c := genControl(t, lbl+"big.")
+				c.Payload = bytes.Repeat([]byte{0xC7}, rapid.IntRange(100, 125).Draw(t, lbl+"bigctl"))
+				s.Frames = append(s.Frames, c)
+				s.ControlBetween, s.NearMax = true, true
 			}
 			s.Frames = append(s.Frames, f)
 		}
